@@ -49,12 +49,16 @@ var c27Schema = []string{
 	"CREATE TABLE items (id INTEGER PRIMARY KEY, name TEXT UNIQUE, qty INTEGER, price REAL, data BLOB, note)",
 	"CREATE TABLE logs (msg TEXT NOT NULL, lvl INTEGER)",
 	"CREATE TABLE aux_tbl (k INTEGER PRIMARY KEY, v)",
+	"CREATE TABLE ledger (k INTEGER PRIMARY KEY, acct TEXT, amt REAL, memo)",
+	"CREATE TABLE big_tbl (a, b, c)",
 }
-var c27Tables = []string{"items", "logs", "aux_tbl"}
+var c27Tables = []string{"items", "logs", "aux_tbl", "ledger", "big_tbl"}
 var c27Cols = map[string][]string{
 	"items":   {"id", "name", "qty", "price", "data", "note"},
 	"logs":    {"msg", "lvl"},
 	"aux_tbl": {"k", "v"},
+	"ledger":  {"k", "acct", "amt", "memo"},
+	"big_tbl": {"a", "b", "c"},
 }
 
 // ---------------------------------------------------------------- canonical events
@@ -70,6 +74,11 @@ type c27Ev struct {
 	// observed events only: the JSON values in column order (what the oracle compares)
 	RawBefore []json.RawMessage
 	RawAfter  []json.RawMessage
+	// observed events only: the row images of the event group as the streamer delivered it (before marshalling)
+	ImgOld, ImgNew []any
+	HasOld, HasNew bool
+	JSONKeysBefore []string // keys of the before/after maps in the JSON, sorted
+	JSONKeysAfter  []string
 }
 
 func c27Tok(v any) string {
@@ -604,7 +613,21 @@ func c27Run(w *vWriter, in c27Input) {
 				if pe != nil {
 					e.Before = conv(je.Before, pe.OldRow)
 					e.After = conv(je.After, pe.NewRow)
+					e.ImgOld, e.HasOld = c27ProtoRow(pe.OldRow), pe.OldRow != nil
+					e.ImgNew, e.HasNew = c27ProtoRow(pe.NewRow), pe.NewRow != nil
 				}
+				keys := func(m map[string]json.RawMessage) []string {
+					if m == nil {
+						return nil
+					}
+					ks := make([]string, 0, len(m))
+					for k := range m {
+						ks = append(ks, k)
+					}
+					sort.Strings(ks)
+					return ks
+				}
+				e.JSONKeysBefore, e.JSONKeysAfter = keys(je.Before), keys(je.After)
 				rawRow := func(m map[string]json.RawMessage) []json.RawMessage {
 					if m == nil {
 						return nil
@@ -799,22 +822,75 @@ func c27Run(w *vWriter, in c27Input) {
 	w.Emit(c)
 }
 
-func c27Cmp(want, got c27Ev, in c27Input) (string, string) {
-	if got.Err != "" {
-		sig := "C27:events-differ:event-error"
-		if strings.Contains(got.Err, "mismatched column names") {
-			sig = "C27:stale-column-names-after-schema-change"
-		} else if strings.Contains(got.Err, "failed to get column names") {
-			sig = "C27:no-column-names-for-table-created-in-same-transaction"
+// c27SameValue: the value the hook reported against the value stored in the shadow row.  A REAL-affinity
+// column stores an integer literal as a real; the hook sees it before that conversion (same JSON number).
+func c27SameValue(got, want any) bool {
+	if gi, ok := got.(int64); ok {
+		if wf, ok := want.(float64); ok {
+			return float64(gi) == wf && int64(wf) == gi
 		}
-		return fmt.Sprintf("event carries an error: %s (expected %s)", got, want), sig
 	}
+	return c27Tok(got) == c27Tok(want)
+}
+
+func c27Cmp(want, got c27Ev, in c27Input) (string, string) {
 	if want.Op != got.Op || want.Table != got.Table {
 		return fmt.Sprintf("expected %s, delivered %s", want, got), "C27:events-differ:wrong-op"
 	}
 	if want.Old != got.Old || want.New != got.New {
 		return fmt.Sprintf("expected %s, delivered %s", want, got), "C27:events-differ:wrong-ids"
 	}
+	cols := c27Cols[want.Table]
+	// 1. the row images of the event as the streamer delivered it: present exactly when the shadow has an image,
+	//    exactly one value per column of THIS table, each equal to the shadow row's value
+	img := func(which string, has bool, g []any, w []any) (string, string) {
+		if (w != nil) != has {
+			if in.IDsOnly && has {
+				return "row-ids-only, but a " + which + " row image is present: " + got.String(), "C27:values-in-ids-only-mode"
+			}
+			return fmt.Sprintf("%s row image present=%v, expected present=%v: expected %s, delivered %s", which, has, w != nil, want, got), "C27:events-differ:row-image-presence"
+		}
+		if w == nil {
+			return "", ""
+		}
+		if len(g) != len(cols) {
+			return fmt.Sprintf("%s row image of a %s event on %s has %d values %v, the table has %d columns (shadow row: %v)",
+				which, got.Op, got.Table, len(g), c27Toks(g), len(cols), c27Toks(w)), "C27:events-differ:row-image-length"
+		}
+		for i := range w {
+			if !c27SameValue(g[i], w[i]) {
+				return fmt.Sprintf("%s row image of a %s event on %s: column %s is %s, the shadow row has %s",
+					which, got.Op, got.Table, cols[i], c27Tok(g[i]), c27Tok(w[i])), "C27:events-differ:wrong-values"
+			}
+		}
+		return "", ""
+	}
+	if f, s := img("old", got.HasOld, got.ImgOld, want.Before); f != "" {
+		return f, s
+	}
+	if f, s := img("new", got.HasNew, got.ImgNew, want.After); f != "" {
+		return f, s
+	}
+	// 2. the marshalled event: no error, before/after maps present with exactly this table's column names
+	if got.Err != "" {
+		// (the tables of a generated program never change, so this is not the stale-schema finding)
+		return fmt.Sprintf("marshalled event carries an error: %s (expected %s)", got, want), "C27:events-differ:event-error"
+	}
+	sortedCols := append([]string{}, cols...)
+	sort.Strings(sortedCols)
+	keysOK := func(w []any, ks []string) bool {
+		if w == nil {
+			return ks == nil
+		}
+		return reflect.DeepEqual(ks, sortedCols)
+	}
+	if !keysOK(want.Before, got.JSONKeysBefore) || !keysOK(want.After, got.JSONKeysAfter) {
+		if in.IDsOnly && (got.JSONKeysBefore != nil || got.JSONKeysAfter != nil) {
+			return "row-ids-only, but values delivered: " + got.String(), "C27:values-in-ids-only-mode"
+		}
+		return fmt.Sprintf("JSON before keys %v / after keys %v, the table's columns are %v (expected %s)", got.JSONKeysBefore, got.JSONKeysAfter, cols, want), "C27:events-differ:json-columns"
+	}
+	// 3. the JSON values
 	same := func(w []any, raw []json.RawMessage) bool {
 		if (w == nil) != (raw == nil) || len(w) != len(raw) {
 			return false
@@ -827,9 +903,6 @@ func c27Cmp(want, got c27Ev, in c27Input) (string, string) {
 		return true
 	}
 	if !same(want.Before, got.RawBefore) || !same(want.After, got.RawAfter) {
-		if in.IDsOnly && (got.RawBefore != nil || got.RawAfter != nil) {
-			return "row-ids-only, but values delivered: " + got.String(), "C27:values-in-ids-only-mode"
-		}
 		return fmt.Sprintf("expected %s, delivered %s (JSON before=%s after=%s)", want, got, got.RawBefore, got.RawAfter), "C27:events-differ:wrong-values"
 	}
 	return "", ""
@@ -934,7 +1007,7 @@ func (g *c27Gen) stmt() c27Stmt {
 			return c27Stmt{SQL: fmt.Sprintf("UPDATE logs SET msg = NULL WHERE rowid >= %d", 1+g.rng.Intn(4)), Kind: "update"}
 		}
 		return c27Stmt{SQL: fmt.Sprintf("UPDATE logs SET msg = msg || '!', lvl = %s WHERE rowid <= %d", g.pick("lvl", "3", "NULL"), 1+g.rng.Intn(5)), Kind: "update"}
-	case x < 88:
+	case x < 82:
 		return c27Stmt{SQL: g.pick(
 			fmt.Sprintf("DELETE FROM items WHERE id > %d", 3+g.rng.Intn(8)),
 			fmt.Sprintf("DELETE FROM items WHERE id = %d", 1+g.rng.Intn(9)),
@@ -942,8 +1015,24 @@ func (g *c27Gen) stmt() c27Stmt {
 			fmt.Sprintf("DELETE FROM logs WHERE rowid <= %d", 1+g.rng.Intn(3)),
 			"DELETE FROM aux_tbl",
 			"DELETE FROM items WHERE name IS NULL"), Kind: "delete"}
-	case x < 94:
+	case x < 85:
 		return c27Stmt{SQL: fmt.Sprintf("UPDATE aux_tbl SET v = %s WHERE k <= %d", g.u(), 1+g.rng.Intn(3)), Kind: "update"}
+	case x < 94:
+		// the other two widths: ledger (4 columns, rowid alias) and big_tbl (3 columns)
+		k := 1 + g.rng.Intn(4)
+		switch g.rng.Intn(6) {
+		case 0:
+			return c27Stmt{SQL: fmt.Sprintf("INSERT OR REPLACE INTO ledger(k,acct,amt,memo) VALUES (%d,'acc%d',%s,%s)", k, k, g.realLit(), g.u()), Kind: "replace"}
+		case 1:
+			return c27Stmt{SQL: fmt.Sprintf("UPDATE ledger SET memo = %s, amt = %s WHERE k <= %d", g.u(), g.realLit(), k), Kind: "update"}
+		case 2:
+			return c27Stmt{SQL: fmt.Sprintf("DELETE FROM ledger WHERE k = %d", k), Kind: "delete"}
+		case 3:
+			return c27Stmt{SQL: fmt.Sprintf("INSERT INTO big_tbl(a,b,c) VALUES (%s,%s,%s),(%s,%s,%s)", g.anyLit(), g.intLit(), g.blobLit(), g.anyLit(), g.realLit(), g.u()), Kind: "insert"}
+		case 4:
+			return c27Stmt{SQL: fmt.Sprintf("UPDATE big_tbl SET c = %s WHERE rowid <= %d", g.u(), k), Kind: "update"}
+		}
+		return c27Stmt{SQL: "DELETE FROM big_tbl WHERE rowid % 2 = 1", Kind: "delete"}
 	default:
 		return c27Stmt{SQL: g.pick("SELECT count(*) FROM items", "INSERT INTO nosuch VALUES (1)", "UPDATE items SET note = note WHERE 0"), Kind: "update"}
 	}
@@ -992,7 +1081,10 @@ func c27GenInput(rng *rand.Rand) c27Input {
 	// seed rows so that updates and deletes have something to work on
 	in.Reqs = append(in.Reqs, c27Req{Stmts: []c27Stmt{
 		{SQL: "INSERT INTO items(id,name,qty,price,data,note) VALUES (1,'n0',1,1.5,x'00ff','a'),(2,'n1',NULL,2,NULL,2),(3,NULL,3,NULL,x'',NULL)", Kind: "insert"},
+		{SQL: "INSERT INTO ledger(k,acct,amt,memo) VALUES (1,'acc1',10.5,'open'),(2,'acc2',0,NULL)", Kind: "insert"},
+		{SQL: "INSERT INTO big_tbl(a,b,c) VALUES ('x',1,x'01'),(NULL,2.5,'y')", Kind: "insert"},
 		{SQL: "INSERT INTO logs(msg,lvl) VALUES ('boot',0),('ready',1)", Kind: "insert"},
+		{SQL: "INSERT INTO aux_tbl(k,v) VALUES (1,'one'),(2,2)", Kind: "insert"},
 	}})
 	for i, n := 0, 2+rng.Intn(5); i < n; i++ {
 		in.Reqs = append(in.Reqs, g.req())
@@ -1030,6 +1122,27 @@ func c27Corpus() []c27Input {
 			s("update-rowid", "UPDATE items SET id = 77, note = 'moved' WHERE id = 2"),
 			s("insert", "INSERT INTO logs(msg,lvl) VALUES ('x',1)"),
 			s("delete", "DELETE FROM items")}}}},
+		// a wider table is changed before a narrower one, under every filter that selects two widths
+		{Filter: "", Reqs: []c27Req{seed, {Stmts: []c27Stmt{
+			s("insert", "INSERT INTO ledger(k,acct,amt,memo) VALUES (1,'a',1.5,'m')"),
+			s("insert", "INSERT INTO logs(msg,lvl) VALUES ('narrow after wide',1)"),
+			s("update", "UPDATE items SET note = 'w' WHERE id = 1"),
+			s("update", "UPDATE logs SET lvl = 7 WHERE rowid = 1"),
+			s("delete", "DELETE FROM ledger"),
+			s("delete", "DELETE FROM logs")}}}},
+		{Filter: "^l", Reqs: []c27Req{seed, {Stmts: []c27Stmt{
+			s("insert", "INSERT INTO ledger(k,acct,amt,memo) VALUES (1,'a',1.5,x'cafe')"),
+			s("insert", "INSERT INTO logs(msg,lvl) VALUES ('narrow after wide',1)"),
+			s("update", "UPDATE logs SET lvl = 7 WHERE rowid = 1"),
+			s("delete", "DELETE FROM logs")}}}},
+		{Filter: "tbl", Reqs: []c27Req{seed, {Stmts: []c27Stmt{
+			s("insert", "INSERT INTO big_tbl(a,b,c) VALUES (1,'two',3.5)"),
+			s("insert", "INSERT INTO aux_tbl(k,v) VALUES (1,'narrow after wide')"),
+			s("update", "UPDATE aux_tbl SET v = 'u' WHERE k = 1"),
+			s("delete", "DELETE FROM aux_tbl")}}}},
+		{Filter: "^(items|logs)$", Reqs: []c27Req{seed, {Tx: true, Stmts: []c27Stmt{
+			s("update", "UPDATE items SET note = 'w' WHERE id = 1"),
+			s("insert", "INSERT INTO logs(msg,lvl) VALUES ('narrow after wide',1)")}}}},
 		{IDsOnly: true, Reqs: []c27Req{seed, {Stmts: []c27Stmt{
 			s("update", "UPDATE items SET note = 'u1', qty = qty + 1 WHERE id BETWEEN 1 AND 2"),
 			s("delete", "DELETE FROM items WHERE id = 1")}}}},
